@@ -18,7 +18,7 @@ REAL_THOROUGH = [{'kind': 'terminate', 'state': 'busy', 'n': 2, 'maxtasks': 1, '
 
 
 def run(res):
-    res.proof_step('Props/C08.v', extra_targets=['Model/Pool.vo', 'Model/Worker.vo'], kernels_needed=['K_worker', 'G_pool_shape'])
+    res.proof_step('Props/C08.v', extra_targets=['Model/Pool.vo', 'Model/Worker.vo'], kernels_needed=['K_worker', 'G_pool_shape', 'G_pool_pins'])
     n = 150 if res.tier == 'quick' else 6000
     if res.broken:
         n = max(n, 1500)      # failing-input search on the implementation
